@@ -327,6 +327,13 @@ def run(ctx):
         for ch in core.chunks(groups, 60):
             zt.append(("zero-tails:c%d" % comp, zf, ch))
     cross += zt
+    # digest twins (value-dependent shape): the source lists the target's chunk but stores other bytes of the same length whose
+    # digest shares its leading 0x00 byte with the listed digest
+    for cfg in (Cfg(0, b"", 0, 3, 1), Cfg(2, b"", 0, 1, 1), Cfg(2, D, 1, 2, 0)):
+        for at in (0, 2):
+            good, mut, content, ci, limit, Q = universe.twin_file(cfg, ctx.seed, at=at)
+            mkt = marks(zckref.parse(good), False)
+            cross.append(("twin:%s@%d" % (cfg.name(), at), good, [("twin:replaced", mut, "-", None, [(mkt[0], "c1"), (mkt[0], "c1,c1"), (mkt[0], "m1")])]))
     ctx.bounds = {"words": "<= 3 letters over %s" % alpha, "configurations": [c.name() for c in cfgs], "pairs": npairs,
                   "target_markings": "every subset of chunks valid", "sequences": "c1 | c1,c1 | c1,c2 | c2,c1 | m1 | m1,m2"}
     ctx.rule = "case = (target marking, source with damage, call sequence); non-trivial = case in which a copy changed a chunk's marking"
